@@ -17,7 +17,7 @@ where
     for (_, n) in g.iter() {
         nodes.push((n.key().clone(), n.value().clone()));
 
-        for Edge(u, v, e) in n.iter() {
+        for Edge(u, v, e) in n.iter_outbound() {
             edges.push((u.key().clone(), v.key().clone(), e));
         }
     }
